@@ -19,14 +19,15 @@ type Violation struct {
 // Tracker carries what the harness has to remember across steps: every identifier ever handed out (ids must be new and above
 // the high-water mark when they first appear, even after deletions) and the shard duration in force when a group appeared.
 type Tracker struct {
-	seen   map[string]map[uint64]string // id kind -> id -> where it lives (db/rp/..)
+	seen   map[string]map[uint64]string // id kind -> id -> where it was first seen (db/rp/..)
+	prev   map[string]map[uint64]bool   // id kind -> ids present after the previous step
 	high   map[string]int64             // id kind -> highest id ever seen (-1: none)
 	sgDur  map[uint64]time.Duration     // shard group id -> policy shard duration when the group first appeared
 	prevSG map[string]time.Duration     // "db/rp" -> shard duration after the previous step
 }
 
 func NewTracker() *Tracker {
-	return &Tracker{seen: map[string]map[uint64]string{}, high: map[string]int64{"mst": -1, "sg": 0, "shard": 0, "ig": 0, "index": 0}, sgDur: map[uint64]time.Duration{}, prevSG: map[string]time.Duration{}}
+	return &Tracker{seen: map[string]map[uint64]string{}, prev: map[string]map[uint64]bool{}, high: map[string]int64{"mst": -1, "sg": 0, "shard": 0, "ig": 0, "index": 0}, sgDur: map[uint64]time.Duration{}, prevSG: map[string]time.Duration{}}
 }
 
 func sortedKeys[V any](m map[string]V) []string {
@@ -102,7 +103,7 @@ func (tr *Tracker) Check(d *meta.Data) []Violation {
 				sg := &rp.ShardGroups[i]
 				sloc := fmt.Sprintf("%s/sg%d", loc, sg.ID)
 				note("sg", sg.ID, loc)
-				if _, known := tr.sgDur[sg.ID]; !known {
+				if !tr.prev["sg"][sg.ID] {
 					// a group that appears in this step was cut with the duration the policy had before the step (a step
 					// either changes the duration or creates a group, never both)
 					dur, ok := tr.prevSG[loc]
@@ -188,10 +189,17 @@ func (tr *Tracker) Check(d *meta.Data) []Violation {
 		ids := order[kind]
 		sort.Slice(ids, func(i, j int) bool { return ids[i] < ids[j] })
 		newHigh := tr.high[kind]
+		present := map[uint64]bool{}
 		for _, id := range ids {
-			if _, old := tr.seen[kind][id]; !old {
+			present[id] = true
+			if !tr.prev[kind][id] {
+				// handed out in this step
 				if int64(id) <= tr.high[kind] {
-					add("ids-never-reused", "%s id %d (%s) was handed out although ids up to %d were in use before", kind, id, now[kind][id], tr.high[kind])
+					was := ""
+					if w, ok := tr.seen[kind][id]; ok {
+						was = " (it denoted " + w + " before)"
+					}
+					add("ids-never-reused", "%s id %d (%s) was handed out although ids up to %d had been handed out before%s", kind, id, now[kind][id], tr.high[kind], was)
 				}
 				tr.seen[kind][id] = now[kind][id]
 			}
@@ -209,6 +217,7 @@ func (tr *Tracker) Check(d *meta.Data) []Violation {
 			}
 		}
 		tr.high[kind] = newHigh
+		tr.prev[kind] = present
 	}
 	return out
 }
